@@ -8,7 +8,9 @@ EnvSits == {([env |-> e] @@ S("nonascii", c, f, "none")) : c \in {"path", "stdin
 \* every situation of one invocation (C19)
 \* "escape": the file defines a report whose file name leads out of the output directory ("../x"); "badname": one whose
 \* file name the library refuses -- whatever other reports the file defines, the command emits its own report and leaves no trace
-Owns == {"none", "json", "csv", "both", "jsonfirst", "escape", "badname", "subdir"}      \* "subdir": own reports named "dir/file"
+Owns == {"none", "json", "csv", "both", "jsonfirst", "escape", "badname", "subdir", "planid", "noid"}      \* "subdir": own reports named "dir/file"
+\* "planid": own reports whose ids ("plan", "auto") are part of the id of every auto report; "noid": a report without an id --
+\* both with names the library refuses: they were not asked for
 Raw == {S(i, c, f, o) : i \in {"missing", "directory", "empty", "blank", "syntax", "model", "ok"},
                         c \in {"path", "dash", "stdin"}, f \in {"json", "csv"}, o \in Owns}
 \* a missing path / a directory cannot arrive over stdin; input that is nothing but white space is empty input on every channel (F91)
